@@ -66,9 +66,9 @@ def adapterCheck (X Tp m Rp sa : Bytes) : R Bool := do
   let ca ← Sodium.clampScalar (← Sodium.hSmall H (RT ++ X ++ m)) false
   let caX ← Sodium.multNoclamp C ca X
   let RcaX ← Sodium.aggregatePoints C [Rp, caX]
-  pure (saG == RcaX)
+  pure (decide (Sodium.leNat sa < groupL) && saG == RcaX)
 
-/-- **`OP_CHECK_ADAPTER_SIG`, exactly**: it pushes the Boolean `sa·G == R + ca·X` with
+/-- **`OP_CHECK_ADAPTER_SIG`, exactly**: it pushes the Boolean `sa < L ∧ sa·G == R + ca·X` with
     `ca = H(R+T ‖ X ‖ m)` — or ends in the error the scalar / point functions raise. -/
 theorem checkAdapterSig_instruction (cfg : Cfg) (T : UInt8 → Op) (k : Op) (fr : Frame) (sh : Shared)
     (X Tp m Rp sa : Bytes) (st : List Bytes) (r : Res)
@@ -95,6 +95,17 @@ theorem checkAdapterSig_instruction (cfg : Cfg) (T : UInt8 → Op) (k : Op) (fr 
     simp only [liftR, pushBool]
     nstep Steps.push (by cases b <;> simp [boolBytes] <;> omega) (by simpa using hroom) ?_
     exact hk
+
+
+/-- a non-canonical adapter scalar is never accepted (the repaired check, fix F17) -/
+theorem adapterCheck_noncanonical (X Tp m Rp sa : Bytes) (h : groupL ≤ Sodium.leNat sa) :
+    adapterCheck H C X Tp m Rp sa ≠ .ok true := by
+  unfold adapterCheck
+  have hd : decide (Sodium.leNat sa < groupL) = false := by simp; omega
+  simp only [hd, Bool.false_and, bind, Except.bind, pure, Except.pure]
+  intro hc
+  repeat' (split at hc)
+  all_goals cases hc
 
 /-- the values `OP_DECRYPT_ADAPTER_SIG` pushes, in the vocabulary of the group-level theorems:
     for a 32-byte tweak scalar (bit 255 clear) and a 32-byte adapter scalar whose sum does not carry
